@@ -154,7 +154,67 @@ def gen_prec(rng, d):
     return kind, L, P
 
 
+def gen_sk_case(rng, quick):
+    """No-cell Euclidean call on arbitrary (non-dyadic) points with offsets up to 2^20, mostly in a
+    self-distance call form (Y omitted / the same object twice).  sklearn's expanded formula is not
+    exact there, so these cases are not compared with the Q model but BITWISE with
+    sklearn.metrics.pairwise.euclidean_distances called in the same form, plus an exactly zero
+    diagonal for the self-distance forms (sklearn zeroes it when `X is Y`)."""
+    d = rng.randint(1, 6)
+    n = rng.randint(1, 5 if quick else 8)
+    off = [rng.choice([0.0, 1.0, -1.0]) * 2.0 ** rng.randint(10, 20) * rng.choice([1.0, 1.0, rng.uniform(0.5, 1.0)])
+           for _ in range(d)]
+    spread = rng.choice([1e-3, 1.0, 30.0])
+    X = [[o + spread * rng.uniform(-1, 1) for o in off] for _ in range(n)]
+    form = rng.choice(["none", "none", "object", "object", "distinct", "views"])
+    Y, alias_mode = None, None
+    if form == "distinct":
+        Y = [[o + spread * rng.uniform(-1, 1) for o in off] for _ in range(rng.randint(1, 5))]
+    elif form == "views" and n >= 2:
+        mode = rng.choice(["shift", "reverse", "sameview"])
+        X, Y = {"shift": (X[:-1], X[1:]), "reverse": (X, X[::-1]), "sameview": (X, [list(r) for r in X])}[mode]
+        alias_mode = mode
+    case = dict(kind="pp", d=d, X=X, Y=Y, how=["sk"] * n, cell=None, cell_family="none", squared=rng.random() < 0.5,
+                mismatch=None, regions=None, integral=False, offset=off, alias_mode=alias_mode, skref=True)
+    case["present"] = gen_present(rng, case)
+    if form == "object":
+        case["present"]["alias"] = True
+    elif form == "none":
+        case["present"]["alias"] = False
+    return case
+
+
+def gen_bigimage(rng, d, n, small):
+    """Cells with power-of-two sides (tiny 2^-20..2^-10 and moderate 2^-3..2^4, mixed per axis) and
+    points a quarter-cell grid value plus m cell lengths with |m| around 2^31, 2^32, 2^40: image
+    indices far beyond the 32-bit range while every quotient, product and difference is exact."""
+    if small:
+        # Mahalanobis (squared output compared with `=`): one scale class per case, so that the mixed
+        # products v_a P_ab v_b stay within 53 bits (exponent spread <= 10: 20 + 11 + 6 bits)
+        tiny = rng.random() < 0.5
+        cell = [2.0 ** (-rng.randint(10, 20)) if tiny else 2.0 ** rng.randint(-3, 4) for _ in range(d)]
+    else:
+        # Euclidean: also strongly anisotropic mixtures, with the exponent spread limited to 21 so that the
+        # sum of squares of the folded differences is still exact (2 * 21 + 5 bits) before the square root
+        cls = rng.choice(["tiny", "moderate", "mixed", "mixed"])
+        if cls == "mixed":
+            cell = [2.0 ** (-rng.randint(10, 18)) if rng.random() < 0.5 else 2.0 ** rng.randint(-3, 3) for _ in range(d)]
+        else:
+            cell = [2.0 ** (-rng.randint(10, 20)) if cls == "tiny" else 2.0 ** rng.randint(-3, 4) for _ in range(d)]
+    rows = []
+    for _ in range(n):
+        row = []
+        for k in range(d):
+            m = rng.choice([0, 0, 2 ** 31, 2 ** 31 - 1, 2 ** 31 + 1, 2 ** 32, 2 ** 40, rng.randint(2 ** 20, 2 ** 41)])
+            m = rng.choice([-1, 1]) * m + rng.randint(-3, 3)
+            row.append((m + rng.randint(-40, 40) / 4.0) * cell[k])
+        rows.append(row)
+    return cell, rows
+
+
 def gen_case(rng, quick):
+    if rng.random() < 0.06:
+        return gen_sk_case(rng, quick)
     kind = rng.choice(["pp", "pp", "mh"])
     small = kind == "mh"
     d = rng.randint(1, 6)
@@ -185,10 +245,15 @@ def gen_case(rng, quick):
         rows = gen_region(rng, d, nx, cell, rx, small, integral) + gen_region(rng, d, ny, cell, ry, small, integral)
         how = [rx] * nx + [ry] * ny
         regions = [rx, ry]
+    bigimage = (not nocell) and rng.random() < 0.08
+    if bigimage:
+        cfam, integral, regions = "pow2tiny", False, ["bigimage", "bigimage"]
+        cell, rows = gen_bigimage(rng, d, nx + ny, small)
+        how = ["bigimage"] * (nx + ny)
     case = dict(kind=kind, d=d, X=rows[:nx], Y=rows[nx:], how=how, cell=cell, cell_family=cfam,
                 squared=rng.random() < 0.5, mismatch=None, regions=regions, integral=integral,
                 offset=None, alias_mode=None)
-    if (kind == "mh" or not nocell) and rng.random() < 0.15:
+    if (kind == "mh" or not nocell) and not bigimage and rng.random() < 0.15:
         # the whole cloud moved by a common offset far larger than its spread (up to 2^27): every
         # difference is still exact in binary64, so any algebraically equivalent but cancelling
         # formula (x.x - 2 x.y + y.y) shows.  Not for the no-cell Euclidean call, which IS sklearn's
@@ -206,7 +271,10 @@ def gen_case(rng, quick):
     elif ra < 0.30 and len(rows) >= 2:
         # X and Y are two views of ONE array (overlapping, reversed, interleaved, identical, shifted
         # by a column): the result may depend on the values only
-        mode = rng.choice(["shift", "shift", "reverse", "interleave", "sameview", "colshift"])
+        # (colshift pairs column k of X with column k+1 of Y: not with the per-axis scales of bigimage or
+        # per-axis common offsets, where such differences are huge and v^T P v leaves the exact domain)
+        mode = rng.choice(["shift", "shift", "reverse", "interleave", "sameview"]
+                          + ([] if (bigimage or case["offset"]) else ["colshift"]))
         if mode == "shift":            # traj[:-1], traj[1:]
             case["X"], case["Y"] = rows[:-1], rows[1:]
         elif mode == "reverse":        # a, a[::-1]
@@ -388,6 +456,14 @@ def run_impl(case):
         rec["error"], rec["error_msg"] = err, msg
     else:
         rec["dtype"] = str(getattr(out, "dtype", type(out).__name__))
+        if case["kind"] == "pp" and case["cell"] is None and case["mismatch"] is None:
+            # "reduces to sklearn's Euclidean distance without a cell": sklearn called in the SAME form
+            # (Y omitted <-> omitted, same object <-> same object, views <-> views) must give the same bits
+            Xs, Ys = build_xy(case, case["present"])
+            ref = euclidean_distances(Xs, Ys, squared=case["squared"])
+            rec["sk_same_form_equal"] = bool(np.shape(out) == ref.shape and np.array_equal(np.asarray(out), ref))
+            if Ys is None or Ys is Xs:
+                rec["self_diag_zero"] = bool(np.all(np.diagonal(np.asarray(out)) == 0))
         out = np.asarray(out, dtype=float)
         rec["shape"] = list(out.shape)
         rec["out"] = out.tolist()
@@ -479,6 +555,29 @@ def close(r, s, squared, rtol=Fr(1, 10 ** 12)):
     return r >= 0 and abs(r * r - s) <= 2 * rtol * s
 
 
+def oracle_side(case, rec):
+    """Checks that do not need the exact minimum-image value: purity, call forms, flags, dtype."""
+    if rec.get("inputs_modified"):
+        return "the call modified its argument(s) %s in place" % ", ".join(rec["inputs_modified"])
+    if rec.get("self_diag_zero") is False:
+        return "without a cell the distance of a point to itself is not exactly zero in a self-distance call"
+    if rec.get("sk_same_form_equal") is False:
+        return "without a cell the result differs from sklearn's euclidean_distances called in the same form"
+    if rec.get("repeat_differs"):
+        return "the same call made again later in the run returned different values (hidden state between calls)"
+    if rec.get("dtype") != "float64":
+        return "output dtype %s, expected float64" % rec.get("dtype")
+    if "other_error" in rec:
+        return "the same call with squared=%s raised %s" % (not case["squared"], rec["other_error"])
+    if not rec.get("other_finite"):
+        return "the same call with squared=%s returned a non-finite value or another shape" % (not case["squared"])
+    root, sqv = (rec["other"], rec["out"]) if case["squared"] else (rec["out"], rec["other"])
+    root, sqv = np.array(root, dtype=float), np.array(sqv, dtype=float)
+    if np.any(root < 0) or not np.allclose(root * root, sqv, rtol=1e-12, atol=0):
+        return "squared=True does not return the square of the squared=False result"
+    return None
+
+
 def oracle(case, rec):
     """Direct statement of C15 on the implementation's output.  None or a message."""
     d = case["d"]
@@ -495,6 +594,8 @@ def oracle(case, rec):
         return "mismatched %s dimension was not rejected" % case["mismatch"]
     if not rec["finite"]:
         return "non-finite distance returned"
+    if case.get("skref"):
+        return oracle_side(case, rec)
     X = [[Fr(v) for v in r] for r in case["X"]]
     Y = X if case["Y"] is None else [[Fr(v) for v in r] for r in case["Y"]]
     cell = None if case["cell"] is None else [Fr(c) for c in case["cell"]]
@@ -534,20 +635,9 @@ def oracle(case, rec):
                     if not ok:
                         return "Mahalanobis distance [%d](%d,%d) = %r is not v^T P v on the minimum-image difference" % (
                             k, i, j, out[k][i][j])
-    if rec.get("inputs_modified"):
-        return "the call modified its argument(s) %s in place" % ", ".join(rec["inputs_modified"])
-    if rec.get("repeat_differs"):
-        return "the same call made again later in the run returned different values (hidden state between calls)"
-    if rec.get("dtype") != "float64":
-        return "output dtype %s, expected float64" % rec.get("dtype")
-    if "other_error" in rec:
-        return "the same call with squared=%s raised %s" % (not case["squared"], rec["other_error"])
-    if not rec.get("other_finite"):
-        return "the same call with squared=%s returned a non-finite value or another shape" % (not case["squared"])
-    root, sqv = (rec["other"], rec["out"]) if case["squared"] else (rec["out"], rec["other"])
-    root, sqv = np.array(root, dtype=float), np.array(sqv, dtype=float)
-    if np.any(root < 0) or not np.allclose(root * root, sqv, rtol=1e-12, atol=0):
-        return "squared=True does not return the square of the squared=False result"
+    msg = oracle_side(case, rec)
+    if msg:
+        return msg
     if "reference_error" in rec:
         return "reference call on the same data failed: " + rec["reference_error"]
     if "sklearn" in rec and not np.allclose(np.array(out), np.array(rec["sklearn"]), rtol=1e-12, atol=0):
@@ -587,7 +677,8 @@ def run(ctx):
                  mismatch_cases=0, errors=0, wrapped_coords=0, half_cell_ties=0, max_abs_quotient=0.0,
                  cases_with_tie=0, prec_kinds={}, stack_sizes={}, pairs=0, row_kinds={},
                  region_pairs={}, presentations={}, mismatch_kinds={}, y_none_by_kind={}, integral=0, aliased=0,
-                 common_offset=0, both_float32=0, f36_mahalanobis_float32_cases=0, flag_pairs_compared=0, purity_checked_calls=0, repeat_calls=0, within_half_cases=0,
+                 common_offset=0, both_float32=0, sklearn_same_form_bitwise=0, self_call_zero_diagonal=0,
+                 sk_family=0, bigimage=0, max_abs_image_index_log2=0.0, f36_mahalanobis_float32_cases=0, flag_pairs_compared=0, purity_checked_calls=0, repeat_calls=0, within_half_cases=0,
                  all_points_in_centred_cell_but_fold_needed=0)
     seen, nontrivial = set(), 0
     for n in range(ncases):
@@ -615,6 +706,10 @@ def run(ctx):
         stats["integral"] += c["integral"]
         stats["aliased"] += bool(c["present"]["alias"])
         stats["common_offset"] += c["offset"] is not None
+        stats["sklearn_same_form_bitwise"] += r.get("sk_same_form_equal") is True
+        stats["self_call_zero_diagonal"] += r.get("self_diag_zero") is True
+        stats["sk_family"] += bool(c.get("skref"))
+        stats["bigimage"] += c["regions"] == ["bigimage", "bigimage"]
         stats["both_float32"] += both_f32(c)
         stats["flag_pairs_compared"] += "error" not in r and "other_error" not in r
         stats["purity_checked_calls"] += 2
@@ -636,6 +731,9 @@ def run(ctx):
         stats["half_cell_ties"] += t
         stats["cases_with_tie"] += t > 0
         stats["max_abs_quotient"] = max(stats["max_abs_quotient"], qm)
+        if qm > 0:
+            import math
+            stats["max_abs_image_index_log2"] = max(stats["max_abs_image_index_log2"], round(math.log2(qm), 1))
         stats["pairs"] += len(c["X"]) * len(c["X"] if c["Y"] is None else c["Y"])
         h = repr((c["kind"], c["X"], c["Y"], c["cell"], c.get("P"), c["squared"]))
         if w > 0 and h not in seen and "error" not in r:
@@ -656,10 +754,15 @@ def run(ctx):
             r["repeat_differs"] = True
         if modified:
             r["inputs_modified"] = sorted(set(r["inputs_modified"] + modified))
-        if differs or r["inputs_modified"] or ("error" not in r and r.get("dtype") != "float64"):
+        if (differs or r["inputs_modified"] or ("error" not in r and r.get("dtype") != "float64")
+                or r.get("sk_same_form_equal") is False or r.get("self_diag_zero") is False):
+            side.append(i)
+        if cases[i].get("skref") and oracle(cases[i], r):
             side.append(i)
     # correspondence inside Coq
-    idx = [i for i, r in enumerate(recs) if ("error" in r or r["finite"]) and ("other_error" in r or r["other_isfinite"])]
+    skref = {i for i, c in enumerate(cases) if c.get("skref")}     # compared with sklearn bitwise, not with the model
+    idx = [i for i, r in enumerate(recs) if i not in skref
+           and ("error" in r or r["finite"]) and ("other_error" in r or r["other_isfinite"])]
     groups, cur, size = [], [], 0
     texts = {}
     for i in idx:
@@ -685,7 +788,7 @@ def run(ctx):
             corr_broken.append(out[-1500:])
             continue
         mismatched += [g[k] for k in lists[0]]
-    mismatched += [i for i in range(len(recs)) if i not in set(idx)]
+    mismatched += [i for i in range(len(recs)) if i not in set(idx) and i not in skref]
     mismatched += side       # input modified in place / second call differs / wrong dtype
     # an exception that is not the expected rejection is examined by the oracle as well
     mismatched += [i for i, r in enumerate(recs) if "error" in r and r["error"] != "ValueError"]
@@ -727,7 +830,10 @@ def run(ctx):
                    "binary64 subtraction, division, np.round, multiplication and BLAS sums are exact (division: "
                    "correctly rounded and far from rounding ties) on the dyadic exactness domain "
                    "(points k/128, |x| < 2^14, optionally plus a common offset up to 2^27 or, with a cell, coarse "
-                   "coordinates k*128 up to 2^20; cells k/8 <= 200.25, precisions k/16)",
+                   "coordinates k*128 up to 2^20; cells k/8 <= 200.25, precisions k/16; or power-of-two cells 2^-20..2^4 with "
+                   "points on the quarter-cell grid up to 2^41 cell lengths away)",
+                   "no-cell Euclidean calls of the `sk` family (arbitrary doubles, offsets up to 2^20) are compared bitwise with "
+                   "sklearn.metrics.pairwise.euclidean_distances called in the same form, not with the model",
                    "square roots (np.linalg.norm, **0.5) are compared root-free within relative 2^-50"],
                evaluations=len(cases), distinct_nontrivial=nontrivial,
                rule="dyadic point sets in 1..6 dimensions, cell families %s; non-trivial = distinct accepted call with a "
